@@ -67,7 +67,7 @@ func (c *c22fChannel) Send(ctx context.Context, m net.TaggedMarshaler, s ...net.
 	return nil
 }
 func (c *c22fChannel) Recv(ctx context.Context, h func(m net.Message)) { atomic.AddInt32(&c.recvs, 1) }
-func (c *c22fChannel) SetUnmarshaler(func() net.TaggedUnmarshaler)    {}
+func (c *c22fChannel) SetUnmarshaler(func() net.TaggedUnmarshaler)     {}
 func (c *c22fChannel) SetFilter(net.BroadcastChannelFilter) error      { return nil }
 
 type c22fOutcome struct {
@@ -81,8 +81,18 @@ type c22fOutcome struct {
 func TestVerif_C22_CoordinateUnderChainFaults(t *testing.T) {
 	r := verifkit.Start(t, "C22", "coordinate-faults")
 	defer r.Finish()
+	c22CoordinateUnderChainFaultsWorkload(t, r, r.N(1500, 60000))
+}
+
+// TestVerif_C22_CoordinateUnderChainFaultsRace: the same workload under the race detector (executors of one node share the chain handle and the window object)
+func TestVerif_C22_CoordinateUnderChainFaultsRace(t *testing.T) {
+	r := verifkit.Start(t, "C22", "coordinate-faults-race")
+	defer r.Finish()
+	c22CoordinateUnderChainFaultsWorkload(t, r, r.N(150, 3000))
+}
+
+func c22CoordinateUnderChainFaultsWorkload(t *testing.T, r *verifkit.Run, n int) {
 	r.SetRule("a node controlling 2-4 wallets (2-5 operators on 3-12 seats each) runs the real coordinate() of every wallet on one shared chain handle and one shared coordinationWindow object, one after the other or concurrently; the chain fails the block-hash lookups with PRNG-chosen ordinals (none, the first, the first two, a later one). For every wallet the role the node takes (leader: proposal generated and broadcast with a checklist; follower: listening) is compared with the leader and checklist computed by another member of the same wallet on its own healthy chain view. A coordinate() that returns an error without acting is accepted. Non-trivial: at least one lookup failed and at least one executor of the node still acted.")
-	n := r.N(1500, 60000)
 	var acted, failedLookups, gaveUp int64
 	verifkit.Parallel(n, 8, func(i int) {
 		rng := r.SubRand("case", i)
